@@ -24,6 +24,10 @@ import (
 // Namespace used for every model feature unless a name carries its own (see ID).
 const Namespace b6.Namespace = "diagonal.works/verif"
 
+// HarnessTagKey is a tag the harness itself puts on features (a list-valued tag whose elements the caller overwrites
+// later, C38); it is outside the model's key universe and not part of the observation.
+const HarnessTagKey = "zl"
+
 // Namespace2 sorts before Namespace.
 const Namespace2 b6.Namespace = "a.verif/ns2"
 
@@ -364,7 +368,7 @@ func ObserveFeature(w b6.World, name string, keys []string, problems *[]string) 
 	}
 	guard(problems, "tags of "+name, func() {
 		for _, t := range f.AllTags() {
-			if t.Key == b6.PointTag || t.Key == b6.PathTag {
+			if t.Key == b6.PointTag || t.Key == b6.PathTag || t.Key == HarnessTagKey {
 				continue
 			}
 			if _, dup := out.Tags[t.Key]; dup && out.Tags[t.Key] != "-" {
